@@ -3,7 +3,7 @@ policies, display timer, Timer, result assembly, restore_sol) driven by a script
 controller and a virtual clock, against Loop.run on the same script (CorrLoop.v)."""
 import sys
 
-sys.path.insert(0, "/repo")
+sys.path.insert(0, __import__("os").environ.get("VERIF_REPO", "/repo"))
 import numpy as np
 
 from ..common import cq, cb, cn, clist, cvec, copt
@@ -63,7 +63,8 @@ def run_scripted(case, log_level=None, callbacks=True, collect=None, subclass_ho
             a = script[k] if k < len(script) else {"fail": True, "checks": 0}
             for _ in range(a["checks"]):
                 if timer.reached_time_limit():
-                    raise StepSolverError("Time limit reached")
+                    # as ExactController does: the trial is abandoned, iterate and step size stay as they are
+                    return StepControlResult(iterate, 1.0 / dt, None, None, False)
             if a.get("fail"):
                 if a.get("kind") == "eval":
                     raise EvalError("scripted", iterate.x)
@@ -250,7 +251,12 @@ def loop_oracle(case, r):
         if not aret and k < len(ann) and ann[k][0] != ann[k][1] and (script[k] if k < len(script) else {"fail": 1}).get("fail"):
             return "reject_keeps_point: failed trial %d announced a different point" % k
         if not aret and lret <= lam and (script[k] if k < len(script) else {"fail": 1}).get("fail"):
-            return "fail_doubles: failed trial %d returned lambda %r, not larger than %r" % (k, lret, lam)
+            # a trial abandoned at a deadline test returns its lambda unchanged; it is then the last trial and the solve
+            # ends with TimeLimit / IterationLimit
+            abandoned = (lret == lam and case["time_limit"] is not None and k == len(trials) - 1
+                         and r.get("kind") in (1, 2) and (script[k] if k < len(script) else {}).get("checks", 0) > 0)
+            if not abandoned:
+                return "fail_doubles: failed trial %d returned lambda %r, not larger than %r" % (k, lret, lam)
         lam = lret
     # C16: rho positive (if it started positive) and non-decreasing
     if case["rho"] > 0:
